@@ -7,7 +7,8 @@ import re
 from typing import Dict, List, Optional, Set, Tuple
 
 from ..astutil import arg_of, call_name, calls, enclosing_loops, guards, kwarg, last_attr, stmt_key, txt, walk_local
-from ..flow import bound_from
+from ..cfg import CFG
+from ..flow import bound_from, expand_helpers, facts_nnf, path_facts
 from ..index import AnalysisError, dotted
 from ..report import Ctx
 
@@ -116,17 +117,27 @@ def _operand_class(func: ast.AST, expr: ast.AST, depth: int = 0) -> str:
 def r05_2(ctx: Ctx) -> None:
     # hybrids: pairs share a defining gene
     func = ctx.fn(FORM, "_find_hybrids")
-    tests = [n for n in walk_local(func) if isinstance(n, ast.If) and "definition_cdses" in txt(n.test)]
-    for index, node in enumerate(tests):
-        m = re.search(r"(\w+)\.definition_cdses\.intersection\((\w+)\.definition_cdses\)", txt(node.test))
-        ok = bool(m) and m.group(1) != m.group(2)
-        adds = [c for c in calls(node) if last_attr(c) == "append" and isinstance(c.args[0], ast.Set)]
-        ok = ok and bool(adds) and sorted(txt(e) for e in adds[0].args[0].elts) == sorted([m.group(1), m.group(2)])
-        ctx.ob("R05.2", FORM, node, "_find_hybrids", f"hybrid pair test#{index}", ok,
+    cfg = CFG(func)
+    pair_adds = [c for c in calls(func) if last_attr(c) == "append" and c.args and isinstance(c.args[0], ast.Set)
+                 and len(c.args[0].elts) == 2]
+    for index, add in enumerate(pair_adds):
+        members = sorted(txt(e) for e in add.args[0].elts)
+        shares = False
+        forms = []
+        for expr, truth in path_facts(cfg, add):
+            expanded = expand_helpers(ctx.repo, FORM, expr)
+            text = txt(expanded)
+            forms.append(("" if truth else "not ") + text)
+            m = re.search(r"(\w+)\.definition_cdses\.(intersection|isdisjoint)\((\w+)\.definition_cdses\)", text) \
+                or re.search(r"(\w+)\.definition_cdses (&) (\w+)\.definition_cdses", text)
+            if m and sorted([m.group(1), m.group(3)]) == members and m.group(1) != m.group(3) \
+                    and truth == (m.group(2) != "isdisjoint"):
+                shares = True
+        ctx.ob("R05.2", FORM, add, "_find_hybrids", f"hybrid pair test#{index}", shares,
                "two protoclusters form a chemical hybrid pair iff their defining genes intersect",
-               form=txt(node.test))
-    ctx.ob("R05.2", FORM, func, "_find_hybrids", "hybrid pair sites", len(tests) == 2,
-           "hybrid pairs are found among all pairs and for the first/last (origin) pair", form=str(len(tests)))
+               form=f"{txt(add)} under {forms}")
+    ctx.ob("R05.2", FORM, func, "_find_hybrids", "hybrid pair sites", len(pair_adds) == 2,
+           "hybrid pairs are found among all pairs and for the first/last (origin) pair", form=str(len(pair_adds)))
     # all pairs: i < j double loop without early exit
     loops = [n for n in walk_local(func) if isinstance(n, ast.For) and "enumerate(clusters[:-1])" in txt(n.iter)]
     ok = bool(loops) and any(isinstance(n, ast.For) and txt(n.iter) == "clusters[i + 1:]" for n in walk_local(loops[0])) \
@@ -287,6 +298,13 @@ def r05_5(ctx: Ctx) -> None:
                        form=f"for {var} in {txt(loop.iter)}: if {txt(test)}: break   [sort key: {key}]")
 
 
+def _ancestors(node: ast.AST):
+    cur = getattr(node, "_parent", None)
+    while cur is not None:
+        yield cur
+        cur = getattr(cur, "_parent", None)
+
+
 def r05_4(ctx: Ctx) -> None:
     func = ctx.fn(FORM, "create_candidates_from_protoclusters")
     asserts = [n for n in walk_local(func) if isinstance(n, ast.Assert) and "len(assigned)" in txt(n.test)]
@@ -295,10 +313,19 @@ def r05_4(ctx: Ctx) -> None:
     ctx.ob("R05.4", FORM, asserts[0] if asserts else func, "create_candidates_from_protoclusters", "sanity assertion", ok,
            "the closing assertion compares the number of protoclusters assigned with the number supplied", form="")
     # `assigned` collects every member of every candidate returned
-    loops = [n for n in walk_local(func) if isinstance(n, ast.For) and txt(n.iter) == "candidates"]
-    ok = any("assigned.add" in txt(lp) and ".protoclusters" in txt(lp) for lp in loops)
+    region = []
+    for node in walk_local(func):
+        if isinstance(node, (ast.Assign, ast.AnnAssign)) and node.value is not None and \
+                any(isinstance(t, ast.Name) and t.id == "assigned"
+                    for t in (node.targets if isinstance(node, ast.Assign) else [node.target])):
+            region.append(txt(node.value))
+        elif isinstance(node, ast.Call) and isinstance(node.func, ast.Attribute) and txt(node.func.value) == "assigned" \
+                and node.func.attr in ("add", "update"):
+            region.append(" ".join([txt(node)] + [f"for {txt(lp.target)} in {txt(lp.iter)}"
+                                                   for lp in enclosing_loops(node, stop=func) if isinstance(lp, ast.For)]))
+    ok = any(re.search(r"\bin candidates\b", text) and ".protoclusters" in text for text in region)
     ctx.ob("R05.4", FORM, func, "create_candidates_from_protoclusters", "assigned collects members", ok,
-           "the assertion counts members of the candidates actually returned", form="")
+           "the assertion counts members of the candidates actually returned", form="; ".join(region))
     helper = ctx.fn(FORM, "create_candidates_from_protoclusters.build_candidates")
     asserts = [n for n in walk_local(helper) if isinstance(n, ast.Assert)]
     ok = any("len(group) > 1" in txt(a.test) and "SINGLE" in txt(a.test) for a in asserts)
@@ -307,17 +334,28 @@ def r05_4(ctx: Ctx) -> None:
     # every leftover protocluster gets a single unless de-duplicated against a candidate containing it
     singles = [c for c in calls(func) if call_name(c) == "CandidateCluster" and "SINGLE" in txt(c.args[0])]
     ok = False
+    shape = ""
     if singles:
-        gs = guards(singles[0], stop=func)
+        cfg = CFG(func)
         loop = enclosing_loops(singles[0], stop=func)
         ok = bool(loop) and "unassigned" in txt(loop[0].iter)
-        skip = [n for n in walk_local(loop[0]) if isinstance(n, ast.If) and any(isinstance(s, ast.Continue) for s in n.body)] \
-            if loop else []
-        ok = ok and len(skip) == 1 and "existing_candidate" in txt(skip[0].test) and "in existing_candidate.protoclusters" in txt(skip[0].test)
-        _ = gs
+        if loop:
+            inner = [(e, t) for e, t in path_facts(cfg, singles[0])
+                     if any(a is loop[0] for a in _ancestors(e))]
+            form = facts_nnf(inner)
+            shape = str(form)
+            var = txt(loop[0].target)
+            lits = sorted(form[1], key=str)
+            if len(lits) == 1 and lits[0][0] == "or":
+                lits = sorted(lits[0][1], key=str)
+                names = [l for l in lits if l[0] == "lit" and l[2] is False and l[1].isidentifier()]
+                ok = ok and len(lits) == 2 and len(names) == 1 and \
+                    ("lit", f"{var} in {names[0][1]}.protoclusters", False) in lits
+            else:
+                ok = False
     ctx.ob("R05.4", FORM, singles[0] if singles else func, "create_candidates_from_protoclusters", "singles", ok,
            "each protocluster outside hybrid/interleaved groups gets a SINGLE unless a same-coordinate candidate contains it",
-           form="")
+           form=shape)
     ext = [c for c in calls(func) if last_attr(c) == "extend" and txt(c.func.value) == "unassigned"]  # type: ignore
     ctx.ob("R05.4", FORM, func, "create_candidates_from_protoclusters", "promoted extras get singles",
            any(txt(c.args[0]) == "singles" for c in ext),
